@@ -16,7 +16,7 @@ MODES = ["", "AUTO", "DRY", "FAN", "COOL", "HEAT"]
 FANS = ["AUTO", "LOW", "MEDIUM", "HIGH"]
 
 
-def gen_case(rng, fault=None):
+def gen_ir(rng):
     special = rng.random() < 0.5
     toggle = rng.random() < 0.5
     ir = G.gen_irset(rng, special=special, toggle=toggle, dense=rng.random() < 0.8)
@@ -24,6 +24,11 @@ def gen_case(rng, fault=None):
     for k in ("aa", "ad", "aw", "ar", "ah", "off", "FUN_d0", "FUN_d1", "on_aa", "on_ad", "on_aw", "on_ar", "on_ah"):
         if k not in have and rng.random() < 0.9:
             ir["IRWaveList"].append({"Key": k, "Para": "P" + k, "HexCode": "C0DE"})
+    return ir
+
+
+def gen_case(rng, fault=None, ir=None):
+    ir = ir or gen_ir(rng)
     cur = {"on": rng.randrange(2), "mode": rng.randrange(1, 6), "target": rng.randrange(16, 31), "fan": rng.randrange(4), "swing": rng.randrange(2)}
     subset = rng.randrange(32)
     req = {"op": "ctlbreeze", "ir": ir,
@@ -132,6 +137,17 @@ def streams(ctx):
     for step in range(4):
         faults += [gen_case(rng, fault=step) for _ in range(ctx.n(300, 8000))]
     ctx.run_cases(CTL, "empty-reply-injected-at-each-step", faults, exhaustive=False, sample_every=500)
+    # ONE remote object used for a series of requests, the same request recurring under different current states of the device
+    series = []
+    for _ in range(ctx.n(25, 400)):
+        ir = gen_ir(rng)
+        base = gen_case(rng, ir=ir)
+        for _k in range(10):
+            c = gen_case(rng, ir=ir)
+            if rng.random() < 0.6:      # the same request again, the device in another state
+                c["req"] = dict(base["req"])
+            series.append(c)
+    ctx.run_cases(CTL, "series-of-requests-through-one-remote-object", series, exhaustive=False, sample_every=len(series) // 3)
 
 
 def search(ctx, broken):
